@@ -13,6 +13,10 @@ open AITB AITB.Belief
 -/
 namespace DrvC05
 
+/-- lazy-message variants of `Verdict.diffIf/failIf` (the message lists exact rationals; build it only when needed) -/
+def dIf (v : Verdict) (c : Bool) (msg : Unit → String) : Verdict := if c then { v with diffs := v.diffs ++ [msg ()] } else v
+def fIf (v : Verdict) (c : Bool) (msg : Unit → String) : Verdict := if c then { v with fails := v.fails ++ [msg ()] } else v
+
 def tol9 : Rat := 1 / 1000000000
 
 /-- relative closeness (all compared quantities are sums of non-negative products: no cancellation) -/
@@ -92,13 +96,13 @@ def checkBlock (conv exact : Bool) (m : POMDP) (b : Vec) (B : Block) (v : Verdic
   let part := arrVec B.part
   -- ---- predict step
   let mp := mPredict rep mm b 0
-  v := v.diffIf (!(allLt S fun s1 => eqv exact (mp s1) (part s1))) s!"{c "updateBeliefPartial"} model={toList S mp} impl={B.part}"
-  v := v.failIf (!(if exact then checkPredict mm b 0 part else allLt S fun s1 => relClose (predictG mm b 0 s1) (part s1))) s!"{c "updateBeliefPartial"} predict_mismatch impl={B.part} spec={toList S (predictG mm b 0)}"
-  v := v.failIf (!(allLt S fun s1 => decide (0 ≤ part s1))) s!"{c "updateBeliefPartial"} negative_entry {B.part}"
-  v := v.failIf (!(decide (absQ (sumTo S part - 1) ≤ 1 / 100000))) s!"{c "updateBeliefPartial"} not_distribution sum={ratStr (sumTo S part)}"
+  v := dIf v (!(allLt S fun s1 => eqv exact (mp s1) (part s1))) (fun _ => s!"{c "updateBeliefPartial"} model={toList S mp} impl={B.part}")
+  v := fIf v (!(if exact then checkPredict mm b 0 part else allLt S fun s1 => relClose (predictG mm b 0 s1) (part s1))) (fun _ => s!"{c "updateBeliefPartial"} predict_mismatch impl={B.part} spec={toList S (predictG mm b 0)}")
+  v := fIf v (!(allLt S fun s1 => decide (0 ≤ part s1))) (fun _ => s!"{c "updateBeliefPartial"} negative_entry {B.part}")
+  v := fIf v (!(decide (absQ (sumTo S part - 1) ≤ 1 / 100000))) (fun _ => s!"{c "updateBeliefPartial"} not_distribution sum={ratStr (sumTo S part)}")
   -- ---- reward (not a clause of the property: correspondence only)
   let mr := mReward conv rep m mm b 0
-  v := v.diffIf (!(if exact then mr == B.reward else closeQ tol9 mr B.reward)) s!"{c "beliefExpectedReward"} model={ratStr mr} impl={ratStr B.reward}"
+  v := dIf v (!(if exact then mr == B.reward else closeQ tol9 mr B.reward)) (fun _ => s!"{c "beliefExpectedReward"} model={ratStr mr} impl={ratStr B.reward}")
   -- ---- per observation
   for o in List.range O do
     let ob := B.obs.getD o { un := #[], no := #[], pun := #[], pno := #[], sosa := #[] }
@@ -106,43 +110,43 @@ def checkBlock (conv exact : Bool) (m : POMDP) (b : Vec) (B : Block) (v : Verdic
     let w := weight mm b 0 o
     let po := probO mm b 0 o
     let mu := mUnnorm rep mm b 0 o
-    v := v.diffIf (!(allLt S fun s1 => eqv exact (mu s1) (un s1))) s!"{c "updateBeliefUnnormalized"} o={o} model={toList S mu} impl={ob.un}"
-    v := v.failIf (!(allLt S fun s1 => decide (0 ≤ un s1))) s!"{c "updateBeliefUnnormalized"} negative_entry o={o} {ob.un}"
-    v := v.failIf (!(if exact then checkUnnorm mm b 0 o un else allLt S fun s1 => relClose (w s1) (un s1))) s!"{c "updateBeliefUnnormalized"} not_bayes_weight o={o} impl={ob.un} spec={toList S w}"
-    v := v.failIf (!(eqv exact po (sumTo S un))) s!"{c "updateBeliefUnnormalized"} sum_not_prob_o o={o} sum={ratStr (sumTo S un)} P(o|b,a)={ratStr po}"
+    v := dIf v (!(allLt S fun s1 => eqv exact (mu s1) (un s1))) (fun _ => s!"{c "updateBeliefUnnormalized"} o={o} model={toList S mu} impl={ob.un}")
+    v := fIf v (!(allLt S fun s1 => decide (0 ≤ un s1))) (fun _ => s!"{c "updateBeliefUnnormalized"} negative_entry o={o} {ob.un}")
+    v := fIf v (!(if exact then checkUnnorm mm b 0 o un else allLt S fun s1 => relClose (w s1) (un s1))) (fun _ => s!"{c "updateBeliefUnnormalized"} not_bayes_weight o={o} impl={ob.un} spec={toList S w}")
+    v := fIf v (!(eqv exact po (sumTo S un))) (fun _ => s!"{c "updateBeliefUnnormalized"} sum_not_prob_o o={o} sum={ratStr (sumTo S un)} P(o|b,a)={ratStr po}")
     -- two-stage helper: its own step, and agreement with the one-stage form
     let mpu := mPartialUnnorm rep mm part 0 o
-    v := v.diffIf (!(allLt S fun s => eqv exact (mpu s) (pun s))) s!"{c "updateBeliefPartialUnnormalized"} o={o} model={toList S mpu} impl={ob.pun}"
-    v := v.failIf (!(allLt S fun s => eqv exact (mm.Ob s 0 o * part s) (pun s))) s!"{c "updateBeliefPartialUnnormalized"} not_correct_step o={o} impl={ob.pun}"
-    v := v.failIf (!(allLt S fun s => eqv exact (un s) (pun s))) s!"{c "updateBeliefPartialUnnormalized"} two_stage_mismatch o={o} one={ob.un} two={ob.pun}"
+    v := dIf v (!(allLt S fun s => eqv exact (mpu s) (pun s))) (fun _ => s!"{c "updateBeliefPartialUnnormalized"} o={o} model={toList S mpu} impl={ob.pun}")
+    v := fIf v (!(allLt S fun s => eqv exact (mm.Ob s 0 o * part s) (pun s))) (fun _ => s!"{c "updateBeliefPartialUnnormalized"} not_correct_step o={o} impl={ob.pun}")
+    v := fIf v (!(allLt S fun s => eqv exact (un s) (pun s))) (fun _ => s!"{c "updateBeliefPartialUnnormalized"} two_stage_mismatch o={o} one={ob.un} two={ob.pun}")
     -- SOSA
     let ms := mSosa rep mm 0 o
-    v := v.diffIf (!(allLt S fun s => allLt S fun s1 => eqv exact (ms s s1) (sosa s s1))) s!"{c "makeSOSA"} o={o} model={toList2 S S ms} impl={ob.sosa}"
-    v := v.failIf (!(if exact then checkSosa mm 0 o sosa else allLt S fun s => allLt S fun s1 => relClose (mm.T s 0 s1 * mm.Ob s1 0 o) (sosa s s1))) s!"{c "makeSOSA"} entry_not_T_times_O o={o} impl={ob.sosa}"
-    v := v.failIf (!(allLt S fun s1 => eqv exact (sumTo S (fun s => b s * sosa s s1)) (un s1))) s!"{c "makeSOSA"} sosa_row_mismatch o={o}"
+    v := dIf v (!(allLt S fun s => allLt S fun s1 => eqv exact (ms s s1) (sosa s s1))) (fun _ => s!"{c "makeSOSA"} o={o} model={toList2 S S ms} impl={ob.sosa}")
+    v := fIf v (!(if exact then checkSosa mm 0 o sosa else allLt S fun s => allLt S fun s1 => relClose (mm.T s 0 s1 * mm.Ob s1 0 o) (sosa s s1))) (fun _ => s!"{c "makeSOSA"} entry_not_T_times_O o={o} impl={ob.sosa}")
+    v := fIf v (!(allLt S fun s1 => eqv exact (sumTo S (fun s => b s * sosa s s1)) (un s1))) (fun _ => s!"{c "makeSOSA"} sosa_row_mismatch o={o}")
     -- normalised forms: only for observations of positive probability
     if po > 0 then
       match xsFin ob.no, xsFin ob.pno with
       | some no, some pno =>
         let nov := arrVec no; let pnov := arrVec pno
-        v := v.diffIf (!(allLt S fun s1 => relClose (mu s1 / sumTo S mu) (nov s1))) s!"{c "updateBelief"} o={o} model={toList S (normalize S mu)} impl={no}"
-        v := v.failIf (!(allLt S fun s1 => decide (0 ≤ nov s1))) s!"{c "updateBelief"} negative_entry o={o} {no}"
-        v := v.failIf (!(decide (absQ (sumTo S nov - 1) ≤ tol9))) s!"{c "updateBelief"} not_normalised o={o} sum={ratStr (sumTo S nov)}"
-        v := v.failIf (!(allLt S fun s1 => relClose (w s1 / po) (nov s1))) s!"{c "updateBelief"} not_bayes_posterior o={o} impl={no} spec={toList S (fun s1 => w s1 / po)}"
-        v := v.failIf (!(allLt S fun s1 => decide (0 ≤ pnov s1))) s!"{c "updateBeliefPartialNormalized"} negative_entry o={o} {pno}"
-        v := v.failIf (!(decide (absQ (sumTo S pnov - 1) ≤ tol9))) s!"{c "updateBeliefPartialNormalized"} not_normalised o={o} sum={ratStr (sumTo S pnov)}"
-        v := v.failIf (!(allLt S fun s1 => relClose (nov s1) (pnov s1))) s!"{c "updateBeliefPartialNormalized"} two_stage_mismatch o={o} one={no} two={pno}"
-        v := v.failIf (!(allLt S fun s1 => relClose (w s1 / po) (pnov s1))) s!"{c "updateBeliefPartialNormalized"} not_bayes_posterior o={o} impl={pno}"
+        v := dIf v (!(allLt S fun s1 => relClose (mu s1 / sumTo S mu) (nov s1))) (fun _ => s!"{c "updateBelief"} o={o} model={toList S (normalize S mu)} impl={no}")
+        v := fIf v (!(allLt S fun s1 => decide (0 ≤ nov s1))) (fun _ => s!"{c "updateBelief"} negative_entry o={o} {no}")
+        v := fIf v (!(decide (absQ (sumTo S nov - 1) ≤ tol9))) (fun _ => s!"{c "updateBelief"} not_normalised o={o} sum={ratStr (sumTo S nov)}")
+        v := fIf v (!(allLt S fun s1 => relClose (w s1 / po) (nov s1))) (fun _ => s!"{c "updateBelief"} not_bayes_posterior o={o} impl={no} spec={toList S (fun s1 => w s1 / po)}")
+        v := fIf v (!(allLt S fun s1 => decide (0 ≤ pnov s1))) (fun _ => s!"{c "updateBeliefPartialNormalized"} negative_entry o={o} {pno}")
+        v := fIf v (!(decide (absQ (sumTo S pnov - 1) ≤ tol9))) (fun _ => s!"{c "updateBeliefPartialNormalized"} not_normalised o={o} sum={ratStr (sumTo S pnov)}")
+        v := fIf v (!(allLt S fun s1 => relClose (nov s1) (pnov s1))) (fun _ => s!"{c "updateBeliefPartialNormalized"} two_stage_mismatch o={o} one={no} two={pno}")
+        v := fIf v (!(allLt S fun s1 => relClose (w s1 / po) (pnov s1))) (fun _ => s!"{c "updateBeliefPartialNormalized"} not_bayes_posterior o={o} impl={pno}")
       | _, _ =>
-        v := v.failIf true s!"{c "updateBelief"} not_finite o={o} P(o|b,a)={ratStr po} norm={ob.no.toList} pnorm={ob.pno.toList}"
+        v := fIf v true (fun _ => s!"{c "updateBelief"} not_finite o={o} P(o|b,a)={ratStr po} norm={ob.no.toList} pnorm={ob.pno.toList}")
   -- ---- over all observations the unnormalised updates add up to the prediction (both are the library's outputs).
   -- |Σ_o un(s1) − partial(s1)| = |Σ_o Ob(s1,o) − 1|·partial(s1): exact when the stored observation rows sum to one.
-  v := v.failIf (!(allLt S fun s1 =>
+  v := fIf v (!(allLt S fun s1 =>
         let tot := sumTo O (fun o => (B.obs.getD o { un := #[], no := #[], pun := #[], pno := #[], sosa := #[] }).un.getD s1 0)
         let dev := absQ (sumTo O (fun o => mm.Ob s1 0 o) - 1)
         let slack := if exact then 0 else tol9
         decide (absQ (tot - part s1) ≤ dev * absQ (part s1) + slack)))
-      s!"{c "updateBeliefUnnormalized"} sum_over_o_not_predict partial={B.part}"
+      (fun _ => s!"{c "updateBeliefUnnormalized"} sum_over_o_not_predict partial={B.part}")
   return v
 
 /-- cross-representation agreement: `other` against the dense block -/
@@ -155,15 +159,15 @@ def crossCheck (exact : Bool) (S O : Nat) (D X : Block) (v : Verdict) : Verdict 
     | .fin p, .fin q => relClose p q
     | .nan, .nan => true
     | x, y => x == y)
-  v := v.failIf (!(same D.part X.part)) s!"{c "updateBeliefPartial"} differs_from_dense dense={D.part} other={X.part}"
+  v := fIf v (!(same D.part X.part)) (fun _ => s!"{c "updateBeliefPartial"} differs_from_dense dense={D.part} other={X.part}")
   for o in List.range O do
     let e : OBlock := { un := #[], no := #[], pun := #[], pno := #[], sosa := #[] }
     let d := D.obs.getD o e; let x := X.obs.getD o e
-    v := v.failIf (!(same d.un x.un)) s!"{c "updateBeliefUnnormalized"} differs_from_dense o={o} dense={d.un} other={x.un}"
-    v := v.failIf (!(same d.pun x.pun)) s!"{c "updateBeliefPartialUnnormalized"} differs_from_dense o={o}"
-    v := v.failIf (!(same d.sosa x.sosa)) s!"{c "makeSOSA"} differs_from_dense o={o}"
-    v := v.failIf (!(sameX d.no x.no)) s!"{c "updateBelief"} differs_from_dense o={o} dense={d.no.toList} other={x.no.toList}"
-    v := v.failIf (!(sameX d.pno x.pno)) s!"{c "updateBeliefPartialNormalized"} differs_from_dense o={o}"
+    v := fIf v (!(same d.un x.un)) (fun _ => s!"{c "updateBeliefUnnormalized"} differs_from_dense o={o} dense={d.un} other={x.un}")
+    v := fIf v (!(same d.pun x.pun)) (fun _ => s!"{c "updateBeliefPartialUnnormalized"} differs_from_dense o={o}")
+    v := fIf v (!(same d.sosa x.sosa)) (fun _ => s!"{c "makeSOSA"} differs_from_dense o={o}")
+    v := fIf v (!(sameX d.no x.no)) (fun _ => s!"{c "updateBelief"} differs_from_dense o={o} dense={d.no.toList} other={x.no.toList}")
+    v := fIf v (!(sameX d.pno x.pno)) (fun _ => s!"{c "updateBeliefPartialNormalized"} differs_from_dense o={o}")
   let _ := S
   return v
 
@@ -224,15 +228,15 @@ def hist : P String := do
       let spec := unnormG mm (arrVec alpha) a o
       let alpha' := ((List.range S).map spec).toArray
       let tot := sumTo S spec
-      let v := v.diffIf (!(allLt S fun s => eqv exact (mu s) (implAl.getD s 0))) s!"{c "updateBeliefUnnormalized"} step={k} model={toList S mu} impl={implAl}"
-      let v := v.failIf (!(allLt S fun s => eqv exact (spec s) (implAl.getD s 0))) s!"{c "updateBeliefUnnormalized"} forward_not_joint step={k} impl={implAl} spec={alpha'}"
+      let v := dIf v (!(allLt S fun s => eqv exact (mu s) (implAl.getD s 0))) (fun _ => s!"{c "updateBeliefUnnormalized"} step={k} model={toList S mu} impl={implAl}")
+      let v := fIf v (!(allLt S fun s => eqv exact (spec s) (implAl.getD s 0))) (fun _ => s!"{c "updateBeliefUnnormalized"} forward_not_joint step={k} impl={implAl} spec={alpha'}")
       let v := if tot > 0 then
           match xsFin implBe with
           | some be =>
-            let v := v.failIf (!(allLt S fun s => relClose (spec s / tot) (be.getD s 0))) s!"{c "updateBelief"} filter_not_posterior step={k} impl={be} spec={toList S (normalize S spec)}"
-            let v := v.failIf (!(allLt S fun s => decide (0 ≤ be.getD s 0))) s!"{c "updateBelief"} negative_entry step={k}"
-            v.failIf (!(decide (absQ (sumTo S (arrVec be) - 1) ≤ tol9))) s!"{c "updateBelief"} not_normalised step={k}"
-          | none => v.failIf true s!"{c "updateBelief"} not_finite step={k} {implBe.toList}"
+            let v := fIf v (!(allLt S fun s => relClose (spec s / tot) (be.getD s 0))) (fun _ => s!"{c "updateBelief"} filter_not_posterior step={k} impl={be} spec={toList S (normalize S spec)}")
+            let v := fIf v (!(allLt S fun s => decide (0 ≤ be.getD s 0))) (fun _ => s!"{c "updateBelief"} negative_entry step={k}")
+            fIf v (!(decide (absQ (sumTo S (arrVec be) - 1) ≤ tol9))) (fun _ => s!"{c "updateBelief"} not_normalised step={k}")
+          | none => fIf v true (fun _ => s!"{c "updateBelief"} not_finite step={k} {implBe.toList}")
         else v
       go (k + 1) alpha' rest v
   let v := go 1 b0 (steps.zip outs) v
